@@ -256,3 +256,49 @@ def rewrite(rng, t):
             extra = [impl.T(dual), a, other] if other != a else [impl.T(dual), a, [impl.T('sym'), 'zz', False]]
             args = args + [extra]
     return [t[0]] + args
+
+
+def tree_tokens(rng, t, top=True):
+    """the token strings of a text the grammar derives for the tree (one string per word / operator / parenthesis)"""
+    def atom(a):
+        if a[0] == 'sym':
+            return a[1].split(' ')
+        return a[1].split(' ') + [recase(rng, 'with')] + a[3].split(' ')
+    if t[0] in ('and', 'or'):
+        out = []
+        for i, x in enumerate(t[1:]):
+            if i:
+                out.append(recase(rng, t[0]))
+            if x[0] in ('and', 'or'):
+                out += ['('] + tree_tokens(rng, x, False) + [')']
+            else:
+                out += atom(x)
+        return out
+    return atom(t)
+
+
+def mutate_tokens(rng, toks, alphabet):
+    """1-2 random edits of a token list: delete, insert, duplicate, swap, replace"""
+    toks = list(toks)
+    for _ in range(rng.choice([1, 1, 2])):
+        k = rng.choice(['del', 'ins', 'dup', 'swap', 'rep', 'phrase', 'phrase'])
+        if k == 'phrase':
+            syms = [a for a in alphabet if a not in ('and', 'or', 'with', '(', ')')] or ['x']
+            ph = rng.choice([[rng.choice(syms), 'with', rng.choice(syms)], ['(', rng.choice(syms), ')'],
+                             [rng.choice(syms), rng.choice(['and', 'or']), rng.choice(syms)], ['(', ')'],
+                             ['(', rng.choice(['and', 'or']), rng.choice(syms), ')']])
+            i = rng.randrange(len(toks) + 1)
+            toks[i:i] = ph
+        elif k == 'del' and toks:
+            del toks[rng.randrange(len(toks))]
+        elif k == 'ins':
+            toks.insert(rng.randrange(len(toks) + 1), rng.choice(alphabet))
+        elif k == 'dup' and toks:
+            i = rng.randrange(len(toks))
+            toks.insert(i, toks[i])
+        elif k == 'swap' and len(toks) > 1:
+            i = rng.randrange(len(toks) - 1)
+            toks[i], toks[i + 1] = toks[i + 1], toks[i]
+        elif k == 'rep' and toks:
+            toks[rng.randrange(len(toks))] = rng.choice(alphabet)
+    return toks
